@@ -210,14 +210,22 @@ PROPS = {
     "C20": dict(
         coq="Properties/C20.v",
         suites=[dict(STAGE_SUITE, oracles=["clean_removed_undelivered_partial", "clean_removed_undelivered_companion", "clean_removed_validated_data", "clean_removed_partial_of_running_transfer"],
-                     diffs=["stage-files", "companions"])],
-        rule=STAGE_RULE,
+                     diffs=["stage-files", "companions"]),
+                dict(name="prune", pkg="./stage/", test="TestVerifPrune", min_lines=100,
+                     oracles=["prune_removed_file", "prune_removed_young_directory", "prune_removed_non_empty_directory"],
+                     diffs=["prune-left"])],
+        rule=STAGE_RULE + (" prune: the real Stage.Prune(1h) on generated directory trees (up to 10 entries, depth <= 5, files and directories, each old (3 h) or "
+                           "young (2 min), ages set bottom-up with Chtimes, under the stage root or the final directory, root old in 1/6 of the cases) plus directed "
+                           "trees (young parent of old empty children, collapsing old chains, file at the bottom of an old chain); the surviving paths are compared "
+                           "with the model's prune; non-trivial = at least three entries; distinct = distinct trees"),
         level_text=("Proof: cleanStrays (after fix d299eeb) never touches .full/.wait bodies, delivered files, log or cache, only removes partials/companions, "
                     "and removes a partial only when it is old AND the cache knows the file beyond 'received' with the companion's hash (or no companion) or "
-                    "the log has a record of that name and hash. Tied to the code by the differential run with aged partials and CleanNow at random points."),
+                    "the log has a record of that name and hash. Tied to the code by the differential run with aged partials and CleanNow at random points. "
+                    "Prune (Model/Prune.v): for every tree, what goes is a directory older than minAge whose entries were all directories removed by the same "
+                    "run; files, young directories and every directory holding something that stays are kept, and nothing that stays loses its parent."),
         level_note=STAGE_NOTE,
-        technique="Coq proof (case analysis of clean_stray) + operation-sequence differential testing + removal oracle",
-        assumptions=["Prune (empty-directory removal) is exercised in the thorough tier only", "file ages are set with Chtimes"],
+        technique="Coq proof (case analysis of clean_stray; induction over the directory tree for prune) + operation-sequence and directory-tree differential testing + removal oracles",
+        assumptions=["file and directory ages are set with Chtimes, bottom-up, after the tree is built", "Prune is modelled on the tree as it is when Prune starts (no concurrent writer during the walk)"],
     ),
     "C06": dict(
         coq="Properties/C06.v",
